@@ -1199,10 +1199,51 @@ func (g *c12gen) staggered(id string) {
 	fmt.Fprintf(w, "end\n")
 }
 
+// a restart between flushes makes file numbers disagree with age (they restart at 1 on every open):
+// a small level 1, two or three big overlapping level-0 tables from the first session, then after
+// the restart an overwrite or delete of one of their keys, everything flushed, one compaction
+// cycle (size-ratio selection on level 0: fewer than maxmem tables there), the flushed log
+// retired, and the reads
+func (g *c12gen) restartRatio(id string) {
+	w, r := g.w, g.r
+	fmt.Fprintf(w, "case %s memsize=100000 maxmem=%d ratio=2 sstmax=1000000\n", id, 4+r.Intn(2))
+	key := func(i int) string { return mkTok([]byte(fmt.Sprintf("k%02d", i))) }
+	big := func() string { return fmt.Sprintf("@%d:%d", 2000+r.Intn(3000), r.Intn(100000)) }
+	fmt.Fprintf(w, "put %s 01\nflush\nrange %s %s\n", key(30), key(30), key(30))
+	nt := 2 + r.Intn(2)
+	var keys []int
+	for t := 0; t < nt; t++ {
+		k := r.Intn(20)
+		keys = append(keys, k)
+		fmt.Fprintf(w, "put %s %s\n", key(k), big())
+		fmt.Fprintf(w, "flush\n")
+	}
+	fmt.Fprintf(w, "reopen\n")
+	k := keys[r.Intn(len(keys)-1)] // not only the key of the newest table
+	if r.Intn(3) == 0 {
+		fmt.Fprintf(w, "del %s\n", key(k))
+	} else {
+		fmt.Fprintf(w, "put %s %s\n", key(k), big())
+	}
+	fmt.Fprintf(w, "full\ntrigger\n")
+	if r.Intn(3) == 0 {
+		fmt.Fprintf(w, "trigger\n")
+	}
+	fmt.Fprintf(w, "retire\n")
+	for _, k := range keys {
+		fmt.Fprintf(w, "get %s\n", key(k))
+	}
+	fmt.Fprintf(w, "get %s\nend\n", key(30))
+}
+
 func genC12(w *bufio.Writer, seed int64, n int, tier string) {
 	r := rand.New(rand.NewSource(seed*7919 + 12))
 	for ci := 0; ci < n; ci++ {
 		g := &c12gen{w: w, r: r}
+		if ci%16 == 5 {
+			g.restartRatio(fmt.Sprintf("c12-%d-%d", seed, ci))
+			continue
+		}
 		if ci%4 == 2 {
 			g.staggered(fmt.Sprintf("c12-%d-%d", seed, ci))
 			continue
